@@ -22,6 +22,7 @@ Outcome RunC18(RunCtx& ctx)
 	ZooGenCfg zg;
 	zg.archive = archive;
 	zg.maxLen = 10;
+	zg.csvRoot = csv ? static_cast<int>(s.draw(sim::L_CFG, 4)) : 0;   // vector, list, deque, forward_list of rows
 	// text formats treat an empty string as null, and null leaves a field unchanged (documented rule): string *fields* are non-empty there
 	zg.nonEmptyStrings = archive == A_XML || archive == A_CSV;
 	// KF-XML-NULL-VS-EMPTY: XML cannot tell an empty container from null, so an empty container in the document leaves a populated target unchanged
@@ -34,14 +35,16 @@ Outcome RunC18(RunCtx& ctx)
 	// documents of the history: saved states of the same type, sizes 0..k on both sides
 	std::vector<std::string> docs(nLoads);
 	std::vector<std::map<std::string, int32_t>> docOnlyExist(nLoads), docUpdate(nLoads);
+	std::vector<std::map<std::string, std::optional<int32_t>>> docUpdateOpt(nLoads);
 	for (uint32_t i = 0; i < nLoads; ++i)
 	{
 		Zoo z;
 		zg.maxLen = s.chance(sim::L_DOC, 1, 4) ? 40 : 6;
 		GenZoo(s, sim::L_DOC, z, zg);
-		if (csv && z.rows.empty() ) z.rows.emplace_back();     // KF-CSV-EMPTY-TABLE (owned by C01)
+		if (csv) EnsureCsvRow(z);     // KF-CSV-EMPTY-TABLE (owned by C01)
 		docOnlyExist[i] = z.mapOnlyExist;
 		docUpdate[i] = z.mapUpdate;
+		docUpdateOpt[i] = z.mapUpdateOpt;
 		CallResult sv = SaveZooWith(ops, z, docs[i], o, OutCfg{});
 		if (!sv.isStd) return Violation("WRONG_EXCEPTION", "archive=" + an + " dir=save", "non-std exception");
 		if (!sv.ok) { ctx.count("save_failed"); return out; }
@@ -75,6 +78,7 @@ Outcome RunC18(RunCtx& ctx)
 
 	std::map<std::string, std::string> finalFields;
 	std::map<std::string, int32_t> refOnlyExist, refUpdate;
+	std::map<std::string, std::optional<int32_t>> refUpdateOpt;
 	std::string failure, failureTags;
 	int64_t leakBlocks = 0;
 	auto history = [&](bool describe)
@@ -84,6 +88,7 @@ Outcome RunC18(RunCtx& ctx)
 			Zoo target;
 			target.skipIntKeyMaps = archive == A_XML;
 			target.useLoadModes = loadModes;
+			target.csvRoot = zg.csvRoot;
 			for (uint32_t i = 0; i < nLoads && failure.empty(); ++i)
 			{
 				const bool last = i + 1 == nLoads;
@@ -112,6 +117,7 @@ Outcome RunC18(RunCtx& ctx)
 					sim::alloc().armed = false;
 					for (auto& kv : docOnlyExist[i]) { auto it = refOnlyExist.find(kv.first); if (it != refOnlyExist.end()) it->second = kv.second; }
 					for (auto& kv : docUpdate[i]) refUpdate[kv.first] = kv.second;
+					for (auto& kv : docUpdateOpt[i]) refUpdateOpt[kv.first] = kv.second;   // a null value resets the optional, the key stays
 					// the first load defines the populated state for OnlyExistKeys (nothing can be added to an empty map)
 					sim::alloc().armed = true;
 				}
@@ -138,7 +144,7 @@ Outcome RunC18(RunCtx& ctx)
 	if (leakBlocks != 0)
 	{
 		const int64_t first = leakBlocks;
-		finalFields.clear(); refOnlyExist.clear(); refUpdate.clear();
+		finalFields.clear(); refOnlyExist.clear(); refUpdate.clear(); refUpdateOpt.clear();
 		history(false);
 		if (leakBlocks != 0) return Violation("LEAK", tags + " what=ledger", std::to_string(first) + " blocks still allocated after the history and the destruction of the target (" + std::to_string(leakBlocks) + " on re-run)");
 	}
@@ -147,6 +153,7 @@ Outcome RunC18(RunCtx& ctx)
 	Zoo fresh;
 	fresh.skipIntKeyMaps = archive == A_XML;
 	fresh.useLoadModes = false;
+	fresh.csvRoot = zg.csvRoot;
 	CallResult rf = LoadZooWith(ops, fresh, docs[nLoads - 1], o, InCfg{});
 	if (!rf.ok) { ctx.count("fresh_load_failed"); return out; }
 	auto expected = ZooFields(fresh, csv);
@@ -155,6 +162,7 @@ Outcome RunC18(RunCtx& ctx)
 		auto mapRepr = [](const std::map<std::string, int32_t>& m) { std::string r = "{"; for (auto& kv : m) r += HexStr(kv.first) + ":" + std::to_string(kv.second) + ","; return r + "}"; };
 		expected["mapOnlyExist"] = mapRepr(refOnlyExist);
 		expected["mapUpdate"] = mapRepr(refUpdate);
+		{ std::string r = "{"; for (auto& kv : refUpdateOpt) r += HexStr(kv.first) + ":" + (kv.second ? std::to_string(*kv.second) : std::string("null")) + ","; expected["mapUpdateOpt"] = r + "}"; }
 	}
 	const std::string diff = ZooDiff(expected, finalFields);
 	if (!diff.empty())
